@@ -20,6 +20,12 @@ CLAIMED = {
    technique="contract-based deductive verification: held(m) obligations at guarded field accesses"),
 }
 
+CLAIMED["C14"] = dict(
+   text="fun.WaitGroup: Add/Done/Inc/Num/IsDone/Wait proved against the counter specification under the lock invariant counter>=0 with wake-up accounting (no waiter parked un-notified while the counter is zero); Add panics exactly when the sum would be negative and leaves the counter unchanged; Wait returns only from a section that observed zero or when its context is done; Launch increments strictly before the go statement and the spawned body defers Done (PostHook runs its hook on normal and panicking exit).",
+   ref="DESIGN.md 5.4, 7/C14",
+   note="Trusted: sync.Mutex/Cond/context models, quiescence theorem 5.4; DoTimes (ft.DoTimes loop) is not under contract.",
+   technique="contract-based deductive verification (lock invariant + ghost wake-up counters + ghost credit for spawn accounting)")
+
 NOT_APPLICABLE = {
  "C01": "exactly-once delivery across an unbounded set of goroutines and channels is a whole-execution property; no per-function contract within reach of the generator states it (DESIGN 7/C01)",
  "C04": "liveness (every goroutine eventually exits, a blocked consumer returns promptly): contracts give partial correctness only (DESIGN 7/C04)",
